@@ -155,6 +155,45 @@ func ruleCC1(c *Ctx) {
 			}
 		}
 	}
+	// single-character escapes looked up in a constant table before the switch:
+	//   if v, ok := table[selector]; ok { write(v); …; continue }
+	ast.Inspect(ue.Body, func(n ast.Node) bool {
+		ifs, ok := n.(*ast.IfStmt)
+		if !ok || ifs.Init == nil || containsNode(esw, ifs) {
+			return true
+		}
+		as, ok := ifs.Init.(*ast.AssignStmt)
+		if !ok || len(as.Lhs) != 2 || len(as.Rhs) != 1 || usesObj(info, ifs.Cond) == nil || usesObj(info, ifs.Cond) != usesObj(info, as.Lhs[1]) {
+			return true
+		}
+		key, entries, isTbl := constTable(p, pk, as.Rhs[0])
+		if !isTbl || !tagIsSelector(key) {
+			return true
+		}
+		valObj := usesObj(info, as.Lhs[0])
+		written := false
+		ast.Inspect(ifs.Body, func(m ast.Node) bool {
+			if call, ok := m.(*ast.CallExpr); ok && len(call.Args) == 1 {
+				if sel, ok := call.Fun.(*ast.SelectorExpr); ok && (sel.Sel.Name == "WriteRune" || sel.Sel.Name == "WriteByte") && usesObj(info, stripConv(info, call.Args[0])) == valObj {
+					written = true
+				}
+			}
+			return true
+		})
+		if !written {
+			return true
+		}
+		for _, en := range entries {
+			var k int64
+			if _, err := fmt.Sscan(en.KeyVal, &k); err != nil {
+				continue
+			}
+			if v, ok := constInt(info, en.Val); ok {
+				got[k] = v
+			}
+		}
+		return true
+	})
 	// single-character escapes delegated to a helper `v, ok := h(selector)` whose result is written
 	for _, sc := range funcScope(p, pk, ue, 1) {
 		hd, ok := sc.node.(*ast.FuncDecl)
